@@ -1,4 +1,5 @@
 import Iec.Lemmas.Srv104
+import Iec.Model.Cli104
 /-
 C05 — Received I-frames delivered exactly once, in order, for any TCP segmentation.
 
@@ -61,5 +62,63 @@ example :
     let c : Sock := { chunks := [[0x68], [4, 7, 0, 0, 0, 0x68], [4, 0x43, 0, 0], [0]] }
     drain 40 [] a = drain 40 [] b ∧ drain 40 [] b = drain 40 [] c ∧
     (drain 40 [] a).1 = [[0x68, 4, 7, 0, 0, 0], [0x68, 4, 0x43, 0, 0, 0]] := by decide
+
+/-! ### client role: the same delivery rule in `checkMessage` of cs104_connection.c (reassembly is the
+same algorithm, `Iec.Srv104.recvStep`, used by the client model) -/
+section Client
+open Iec.Cli104 Iec.KWindow
+
+/-- the I-format APDU `buf` is acceptable for the client in state `c` -/
+def CliAccept (c : Cli) (buf : List Nat) : Prop :=
+  (buf.getD 3 0 * 0x100 + (buf.getD 2 0 &&& 0xfe)) / 2 = c.vr ∧
+  (checkSeq c.vs c.win ((buf.getD 5 0 * 0x100 + (buf.getD 4 0 &&& 0xfe)) / 2)).1 = true ∧
+  c.p.asduHdr ≤ buf.length - 6
+
+set_option maxRecDepth 4000 in
+/-- **client: an I-format APDU is handed to the application exactly once iff N(S) = V(R)** (and N(R) is inside the
+window and the ASDU header is complete); then V(R) advances by one modulo 32768; otherwise nothing is delivered
+and the connection is closed. -/
+theorem client_delivery (c : Cli) (buf : List Nat) (h7 : 7 ≤ buf.length) (hI : buf.getD 2 0 &&& 1 = 0) :
+    (CliAccept c buf →
+      (checkMessage c buf).2 = true ∧ (checkMessage c buf).1.vr = (c.vr + 1) % 32768 ∧
+      (checkMessage c buf).1.log = c.log ++ [.asdu (buf.drop 6)]) ∧
+    (¬ CliAccept c buf → (checkMessage c buf).2 = false ∧ (checkMessage c buf).1.log = c.log) := by
+  have hn6 : ¬ (buf.length < 6) := by omega
+  have hn7 : ¬ (buf.length < 7) := by omega
+  have hI' : (buf.getD 2 0 &&& 1 == 0) = true := by rw [hI]; rfl
+  unfold CliAccept checkMessage
+  simp only [hn6, if_false, hI', if_true, hn7]
+  generalize hns : (buf.getD 3 0 * 0x100 + (buf.getD 2 0 &&& 0xfe)) / 2 = ns
+  generalize hnr : (buf.getD 5 0 * 0x100 + (buf.getD 4 0 &&& 0xfe)) / 2 = nr
+  generalize hc' : (if !c.t2Trigger then { c with t2Trigger := true, lastConf := some c.now } else c) = c'
+  have hvr : c'.vr = c.vr := by subst hc'; split <;> rfl
+  have hwin : c'.win = c.win := by subst hc'; split <;> rfl
+  have hvs : c'.vs = c.vs := by subst hc'; split <;> rfl
+  have hlog : c'.log = c.log := by subst hc'; split <;> rfl
+  have hp : c'.p = c.p := by subst hc'; split <;> rfl
+  rw [hvr, hwin, hvs]
+  constructor
+  · rintro ⟨h1, h2, h3⟩
+    have hl : ¬ (buf.length - 6 < c.p.asduHdr) := by omega
+    subst h1
+    simp [h2, hp, hl, Iec.Cli104.emit, hvr, hlog]
+  · intro hna
+    by_cases h1 : ns = c.vr
+    · subst h1
+      by_cases h2 : (checkSeq c.vs c.win nr).1 = true
+      · have hl : buf.length - 6 < c.p.asduHdr := by
+          apply Classical.byContradiction; intro hl
+          exact hna ⟨rfl, h2, by omega⟩
+        simp [h2, hp, hl, hlog]
+      · have h2' : (checkSeq c.vs c.win nr).1 = false := by simpa using h2
+        simp [h2', hlog]
+    · simp [h1, hlog]
+
+/-- **a frame shorter than the six octets of the APCI closes the client connection** (no stale control octet
+is interpreted; repaired behaviour, fix 448a2c2) -/
+theorem client_short_closes (c : Cli) (buf : List Nat) (h : buf.length < 6) : checkMessage c buf = (c, false) := by
+  unfold checkMessage; simp [h]
+
+end Client
 
 end Iec.Props.C05
